@@ -69,6 +69,14 @@ func Corpus() []CorpusEntry {
 			Txns: []TxnSpec{commitTxn(adds(0, 1, 2, 3)), commitTxn([]Op{{Store: 0, Kind: "rem", Key: 2}})}},
 		Sites: []string{""}, Modes: []string{""},
 	})
+	// actively persisted values: Get then Update overwrites the committed value blob in place, a rollback then
+	// removes it (C19 finding); seen from C01 as a rolled-back transaction that changed committed data
+	c = append(c, CorpusEntry{
+		Name: "active-get-update-rollback",
+		Program: &Program{HashMod: 2, Stores: one("st0", sopx.StoreOpts{Slot: 4, ActivelyP: true}),
+			Txns: []TxnSpec{commitTxn(adds(0, 1, 2, 3)), {Ops: []Op{{Store: 0, Kind: "get", Key: 1}, {Store: 0, Kind: "upd", Key: 1, Val: "u1"}}, End: "rollback", Fault: Fault{Index: -1}}}},
+		Sites: []string{""}, Modes: []string{""},
+	})
 	// two stores, one transaction
 	c = append(c, CorpusEntry{
 		Name: "two-stores",
